@@ -589,9 +589,118 @@ def tt2_e2e(sx, driver, n):
 
 
 # ----------------------------------------------------------------------------
+# ----------------------------------------------------------------------------
+# (a') frames written by the module-level init(transport) of the PN532 driver
+# on a serial line: they do not go through Chipset.command()
+# ----------------------------------------------------------------------------
+class _FakeOs(object):
+    """`os` of nfc.clf.pn532 during init(): stty succeeds for the baud rates
+    in `accept` (os.system -> 0), fails for the others"""
+
+    def __init__(self, real, accept, log):
+        self._real, self._accept, self._log = real, accept, log
+
+    def __getattr__(self, name):
+        return getattr(self._real, name)
+
+    def system(self, cmd):
+        self._log.append(cmd)
+        for b in (921600, 460800, 230400, 115200):
+            if (" %d " % b) in cmd:
+                return 0 if b in self._accept else 256
+        return 256
+
+
+class _FakeSys(object):
+    platform = "linux"
+
+
+def init_pn532_tty(sx, accept, board, port):
+    """the real nfc.clf.pn532.init(transport) on a TTY whose stty accepts the
+    baud rates in `accept`; board: contents of /proc/device-tree/model or
+    None (file absent).  Every frame written to the line (after the optional
+    wake-up preamble of zero octets; the bare ACK excepted) must be a
+    well-formed PN53x command frame that the chip model then answers."""
+    import nfc.clf.pn532 as drv
+    from env.hostlink import HostLink, init_chip
+    if board is not None and not isinstance(board, bytes):
+        board = board.encode("latin1")
+    link = HostLink(sx, 'pn53x', init_chip('pn532'))
+    link.TYPE = "TTY"
+    link.port = port
+    frames = []
+    opened = []
+    raw_write = link.write
+
+    def write(frame, timeout=0):
+        items = list(frame)
+        k = 0
+        while k + 2 < len(items) and items[k] == 0 and items[k + 1] == 0 and items[k + 2] == 0:
+            k += 1                      # wake-up preamble: extra zero octets
+        items = items[k:]
+        frames.append(items)
+        return raw_write(sx.mkbytes(items, True), timeout)
+    link.write = write
+    link.open = lambda port=None, baudrate=115200: opened.append(baudrate)
+    syslog = []
+
+    def fake_open(path, mode="r"):
+        if path == '/proc/device-tree/model' and board is not None:
+            import io
+            return io.BytesIO(board)
+        raise IOError(errno.ENOENT, "no such file")
+    saved = (drv.os, drv.sys, getattr(drv, "open", None))
+    drv.os, drv.sys, drv.open = _FakeOs(saved[0], accept, syslog), _FakeSys, fake_open
+    try:
+        try:
+            dev = drv.init(link)
+            out = "device"
+        except IOError as e:
+            dev, out = None, "IOError"
+    finally:
+        drv.os, drv.sys = saved[0], saved[1]
+        if saved[2] is None:
+            del drv.open
+        else:
+            drv.open = saved[2]
+    tag = "pn532:init:tty"
+    for f in frames:
+        if f == list(ACK):
+            continue
+        readings = [r for r in with_code(pn53x_read(sx, f))]
+        if not readings:
+            sx.check(False, "init-frame-unreadable:" + tag)
+        sx.check(sx.any([r['head'] for r in readings]), "init-frame-header-malformed:" + tag)
+        sx.check(sx.any([sx.all([r['head'], r['dcs']]) for r in readings]),
+                 "init-frame-data-checksum-wrong:%s:cmd=%02X" % (tag, f[6] if len(f) > 6 else 0))
+        sx.check(sx.any([sx.all([r['head'], r['dcs'], r['body'][0] == 0xD4]) for r in readings]),
+                 "init-frame-identifier-wrong:" + tag)
+        sx.check(f[len(f) - 1] == 0, "init-frame-postamble:" + tag)
+    if out != "device":
+        sx.check(False, "init-fails-on-a-conformant-chip:" + tag)
+    best = max([b for b in accept if b != 115200] or [115200])
+    limited = board is not None and board.startswith(b"Raspberry Pi") and port == "/dev/ttyS0"
+    want = 115200 if limited else best
+    sx.check(opened[-1] == want, "init-line-speed-not-the-best-accepted:" + tag)
+    sx.reach("init:pn532:tty")
+    if want > 115200:
+        sx.reach("init:pn532:baudrate-changed")
+    return [out, opened, len(frames)]
+
+
 def partitions(tier):
     q = tier == "quick"
     parts = []
+    for i, accept in enumerate(([921600, 460800, 230400, 115200], [460800, 230400, 115200],
+                                [230400, 115200], [115200], [])):
+        for board, port in ((None, "/dev/ttyUSB0"), (b"Raspberry Pi 3 Model B\x00", "/dev/ttyUSB0"),
+                            (b"Raspberry Pi 3 Model B\x00", "/dev/ttyS0")):
+            if board is not None and i not in (0, 2):
+                continue
+            parts.append(dict(name="init:pn532:tty:%d:%s:%s" % (i, "rpi" if board else "pc", port[-4:]),
+                              fn="init_pn532_tty",
+                              params=dict(accept=accept, board=board.decode("latin1") if board else None,
+                                          port=port)))
 
     def add(name, fn, **params):
         parts.append(dict(name=name, fn=fn, params=params))
@@ -665,7 +774,7 @@ def partitions(tier):
     return parts
 
 
-MUST_REACH = ["built:pn53x:normal", "built:pn53x:extended", "built:ccid",
+MUST_REACH = ["init:pn532:tty", "init:pn532:baudrate-changed", "built:pn53x:normal", "built:pn53x:extended", "built:ccid",
               "built:rcs380", "accepted:pn53x", "rejected:pn53x",
               "errorframe:pn53x", "accepted:long:normal",
               "accepted:long:extended", "valid:accepted", "accepted:ccid",
@@ -676,7 +785,7 @@ MUST_REACH = ["built:pn53x:normal", "built:pn53x:extended", "built:ccid",
               "e2e:crc-by-driver", "e2e:rejected", "e2e:data"]
 
 BOUNDS = {
-    "quick": "construction: every command code of the chipset's CMD table x payload lengths {0,1,2,3,250..257,262,263 as far as the chip's maximum allows} (pn531, pn532 full set; pn533, rcs956, arygon A/B subset), ACR122 {0..3,250..252}, RC-S380 {0..3,252..257,289,290}, all payload contents; acceptance: every byte string of length 0..10 as response for command codes 02h/42h/8Ch (pn532: after the ACK, instead of the ACK, and with cmd_data=None; pn531: after the ACK), valid long frames with payload 252..255 (LEN 254..257) with 1-3 positions out of {LEN,LCS,bytes 5-7,TFI,code,middle,last,DCS,postamble} overwritten by arbitrary bytes (31 position sets) or cut/extended by 1-2 bytes, well-formed responses with 0..262 arbitrary payload bytes are returned intact, ACR122 responses of length 0..16 through command() and ccid_xfr_block(); CRC: calculate_crc == ISO 13239 reference for all messages of 0..5 bytes in one query and of 2..8, 12, 16 bytes by solver-checked induction over the prefixes (CRC_A and CRC_B presets), one byte from an arbitrary 16-bit register; add_crc_a/b, check_crc_a/b for all messages of 0..4 bytes and all CRC byte pairs; Type 2 Tag response CRC check (_tt2_send_cmd_recv_rsp) of pn532 and rcs380 for all responses of 0..6 bytes; end to end for all eight drivers: Type A target with an arbitrary SEL_RES byte activated through the real sense_tta() (PN53x family), exchange through the real send_cmd_recv_rsp(), the chip model checking CRC_A itself iff the driver left RxCRCEn (CIU_RxMode bit 7) / check_crc (RC-S380) enabled, all tag responses of 0..5 octets (pn531, pn532, acr122, rcs380; 1, 3, 5 octets for the others): wrong CRC -> TransmissionError, good CRC -> the data without the CRC octets, <= 2 octets only for SEL_RES b7,b6 = 00",
+    "quick": "the frames that the PN532 driver's module-level init() writes to a serial line (wake-up preamble, GetFirmwareVersion, SAMConfiguration, SetSerialBaudrate for every subset of line speeds that stty accepts, PC and Raspberry Pi ports; these frames do not go through Chipset.command()); construction: every command code of the chipset's CMD table x payload lengths {0,1,2,3,250..257,262,263 as far as the chip's maximum allows} (pn531, pn532 full set; pn533, rcs956, arygon A/B subset), ACR122 {0..3,250..252}, RC-S380 {0..3,252..257,289,290}, all payload contents; acceptance: every byte string of length 0..10 as response for command codes 02h/42h/8Ch (pn532: after the ACK, instead of the ACK, and with cmd_data=None; pn531: after the ACK), valid long frames with payload 252..255 (LEN 254..257) with 1-3 positions out of {LEN,LCS,bytes 5-7,TFI,code,middle,last,DCS,postamble} overwritten by arbitrary bytes (31 position sets) or cut/extended by 1-2 bytes, well-formed responses with 0..262 arbitrary payload bytes are returned intact, ACR122 responses of length 0..16 through command() and ccid_xfr_block(); CRC: calculate_crc == ISO 13239 reference for all messages of 0..5 bytes in one query and of 2..8, 12, 16 bytes by solver-checked induction over the prefixes (CRC_A and CRC_B presets), one byte from an arbitrary 16-bit register; add_crc_a/b, check_crc_a/b for all messages of 0..4 bytes and all CRC byte pairs; Type 2 Tag response CRC check (_tt2_send_cmd_recv_rsp) of pn532 and rcs380 for all responses of 0..6 bytes; end to end for all eight drivers: Type A target with an arbitrary SEL_RES byte activated through the real sense_tta() (PN53x family), exchange through the real send_cmd_recv_rsp(), the chip model checking CRC_A itself iff the driver left RxCRCEn (CIU_RxMode bit 7) / check_crc (RC-S380) enabled, all tag responses of 0..5 octets (pn531, pn532, acr122, rcs380; 1, 3, 5 octets for the others): wrong CRC -> TransmissionError, good CRC -> the data without the CRC octets, <= 2 octets only for SEL_RES b7,b6 = 00",
     "thorough": "as quick with all six PN53x chipset classes, response strings 0..16 (pn532 after-ACK: every command code of the table; ACR122 0..22), CRC equivalence 0..7 bytes in one query and every length 2..24 by prefix induction, add/check 0..6 bytes, Type 2 Tag check for six drivers and 0..8 bytes, end-to-end CRC check for all drivers and 0..8 octets",
 }
 OUTSIDE = [
